@@ -11,7 +11,11 @@
                    to be ASCII by the extractor: `asciiLiteralsAllAscii`).  Each argument is ASCII by
                    construction: a strconv/ftoa/time/hex/big.Int formatter, a class-name constant, the ASCII
                    branch of a scan (`i.s` when `i.u == nil`, `strings.Builder` filled with bytes < 0x80), or
-                   `strings.ToLower/ToUpper` of an asciiString.
+                   `strings.ToLower/ToUpper` of an asciiString, the trim of an asciiString (`trimString`, 86d74e7).
+                   Three sites convert a possibly non-ASCII UTF-8 string on purpose, as a TEMPORARY receiver for
+                   number parsing that never escapes as a String value: `asciiString(s.toTrimmedUTF8())` in
+                   unicodeString.ToNumber / ToInteger / ToFloat (the latter two added by 6010fc8).
+                   Re-reviewed after the re-sync (59 fix commits): +3 sites, literal count 83 → 82.
   A new or moved raw conversion site, or a changed argument, makes these equalities fail: the tie is then
   broken until the site has been reviewed and the expectation updated.
 -/
@@ -106,6 +110,7 @@ def asciiSites : List (String × String × String) := [
   ("builtin_string.go", "Runtime.stringproto_split", "value"),
   ("builtin_string.go", "Runtime.stringproto_split", "sb.String()"),
   ("builtin_string.go", "Runtime.stringproto_split", "rune(c)"),
+  ("builtin_string.go", "trimString", "str"),
   ("builtin_string.go", "Runtime.createStringIterProto", "classStringIterator"),
   ("builtin_typedarrays.go", "Runtime.uint8ArrayProto_toHex", "stdhex.EncodeToString(toEnc)"),
   ("builtin_weakmap.go", "Runtime.createWeakMapProto", "classWeakMap"),
@@ -147,6 +152,8 @@ def asciiSites : List (String × String × String) := [
   ("string_imported.go", "importedString.toUpper", "i.s"),
   ("string_unicode.go", "unicodeStringBuilder.String", "buf"),
   ("string_unicode.go", "StringBuilder.String", "b.asciiBuilder.String()"),
+  ("string_unicode.go", "unicodeString.ToInteger", "s.toTrimmedUTF8()"),
+  ("string_unicode.go", "unicodeString.ToFloat", "s.toTrimmedUTF8()"),
   ("string_unicode.go", "unicodeString.ToNumber", "s.toTrimmedUTF8()"),
   ("string_unicode.go", "unicodeString.Substring", "as"),
   ("string_unicode.go", "toLower", "r"),
@@ -159,7 +166,7 @@ def asciiSites : List (String × String × String) := [
   ("vm.go", "concatStrings.exec", "buf.String()")
 ]
 
-def asciiLiteralCount : Nat := 83
+def asciiLiteralCount : Nat := 82
 
 end Expected
 
